@@ -198,6 +198,7 @@ class Scenario:
         if c.get("result_reducers") is not None:
             kw["result_reducers"] = tasks.reducers(c["result_reducers"])
         # the machine's CPU count is an input of the reusable executor (its call queue has 2 * cpu_count() + 1 slots)
+        esim.S.no_exitcode = bool(c.get("no_exitcode"))
         pe._USE_PSUTIL = bool(c.get("leak_after"))
         esim.S.leak_after = c.get("leak_after")
         global _REAL_CPU_COUNT
@@ -376,6 +377,12 @@ class Scenario:
             f = self.futs.get(op[1])
             if f is not None:
                 f.add_done_callback(lambda fut, t=op[2]: self.do("cb", ["submit", t, "ok"]))
+        elif k == "callback_slow":
+            # register on future op[1] a done-callback that takes op[2] seconds (it runs in the manager thread, which is
+            # unavailable meanwhile)
+            f = self.futs.get(op[1])
+            if f is not None:
+                f.add_done_callback(lambda fut, d=op[2]: pe.sleep(d))
         else:
             raise AssertionError("unknown op %r" % (op,))
 
@@ -597,7 +604,7 @@ def _end_state(S, sc, end):
             blocked.append(dict(name=r["name"], role=r["role"], proc=str(r["proc"]), label=r["label"]))
     died = [dict(name=r["name"], role=r["role"], exc=r["exc"]) for r in S.recs.values() if r.get("exc")]
     pending = sorted(t for t, f in sc.futs.items() if not f.done())
-    procs = {str(pid): dict(dead=p._dead, how=p.how, code=p.exitcode, reaped=p._reaped) for pid, p in S.procs.items()}
+    procs = {str(pid): dict(dead=p._dead, how=p.how, code=p._exitcode, reaped=p._reaped) for pid, p in S.procs.items()}
     ex = []
     for e in sc.execs:
         try:
